@@ -1160,22 +1160,52 @@ func runOkAgg(c *core.Ctx) {
 			continue
 		}
 		arg := call.Call.Args[0]
-		guardedByLen := false
-		for _, g := range an.Guards(host, rb) {
-			// any spelling of "the rejecting list is not empty": len > 0, len != 0, !(len == 0), len >= 1 …
-			b, ok := g.V.(*ssa.BinOp)
-			if !ok {
-				continue
+		// "the rejecting list is not empty" holds at block b — any spelling: len > 0, len != 0, !(len == 0), len >= 1 …
+		var edgeTo *ssa.BasicBlock
+		nonEmptyRej := func(b *ssa.BasicBlock, list ssa.Value) bool {
+			gs := an.Guards(host, b)
+			// the branch b itself takes towards edgeTo (a phi edge leaving an `if` directly)
+			if iff, isIf := an.LastInstr(b).(*ssa.If); isIf && edgeTo != nil && len(b.Succs) == 2 && b.Succs[0] != b.Succs[1] {
+				gs = append(gs, an.NormCond(an.Cond{V: iff.Cond, True: b.Succs[0] == edgeTo, At: b}))
 			}
-			lp, ok := b.X.(*ssa.Call)
-			if !ok || !strings.HasPrefix(an.PathOf(b.X), "len(") || !(lp.Call.Args[0] == arg || onlyPolarity(lp.Call.Args[0], false)) {
-				continue
+			for _, g := range gs {
+				bin, ok := g.V.(*ssa.BinOp)
+				if !ok {
+					continue
+				}
+				lp, ok := bin.X.(*ssa.Call)
+				if !ok || !strings.HasPrefix(an.PathOf(bin.X), "len(") || !(lp.Call.Args[0] == list || onlyPolarity(lp.Call.Args[0], false)) {
+					continue
+				}
+				fr := an.Frame{IsSubject: func(v ssa.Value) bool { return v == ssa.Value(lp) }, Term: func(v ssa.Value) (int64, bool) { return an.ConstInt(v) }}
+				if set, ok := fr.Atom(g.V, g.True); ok && set.Intersect(an.Range(0, an.PosInf)).Equal(an.Range(1, an.PosInf)) {
+					return true
+				}
 			}
-			fr := an.Frame{IsSubject: func(v ssa.Value) bool { return v == ssa.Value(lp) }, Term: func(v ssa.Value) (int64, bool) { return an.ConstInt(v) }}
-			if set, ok := fr.Atom(g.V, g.True); ok && set.Intersect(an.Range(0, an.PosInf)).Equal(an.Range(1, an.PosInf)) {
-				guardedByLen = true
-			}
+			return false
 		}
+		// one join call fed by a variable that was picked before (`picked := accepted; if len(rejected) > 0
+		// { picked = rejected }; return join(picked...)`): per edge of the phi
+		if ph, isPhi := an.Unwrap(arg).(*ssa.Phi); isPhi && len(ph.Edges) == 2 && !onlyPolarity(arg, false) && !onlyPolarity(arg, true) {
+			rejEdge, accEdge := -1, -1
+			for i, e := range ph.Edges {
+				switch {
+				case onlyPolarity(e, false):
+					rejEdge = i
+				case onlyPolarity(e, true):
+					accEdge = i
+				}
+			}
+			edgeTo = ph.Block()
+			picked := rejEdge >= 0 && accEdge >= 0 && nonEmptyRej(ph.Block().Preds[rejEdge], ph.Edges[rejEdge]) && !nonEmptyRej(ph.Block().Preds[accEdge], ph.Edges[rejEdge])
+			if picked {
+				okRet = true
+			}
+			edgeTo = nil
+			detail += fmt.Sprintf("[join(picked list): rejecting list chosen iff non-empty: %v] ", picked)
+			continue
+		}
+		guardedByLen := nonEmptyRej(rb, arg)
 		isRej := onlyPolarity(arg, false)
 		if guardedByLen && isRej {
 			okRet = true
